@@ -521,11 +521,17 @@ def union_bits(ctx, rng):
                                "workload": "union-bits"})
                 continue
             try:
-                nv = (1 << b1) - 1
+                nv = ((1 << b1) - 1) ^ (wa & 1)          # differs from the parsed value in its lowest bit at least
                 u.a = nv
+                bo = "little" if endian == "<" else "big"
+                mask_a = (1 << b1) - 1 if endian == "<" else ((1 << b1) - 1) << (size * 8 - b1)
                 image = nv if endian == "<" else nv << (size * 8 - b1)
-                wb2 = image & ((1 << b2) - 1) if endian == "<" else image >> (size * 8 - b2)
-                ok = int(u.a) == nv and int(u.b) == wb2 and u.dumps() == image.to_bytes(size, "little" if endian == "<" else "big")
+                # the bits of the unit that are not a's stay as they are: b is a view of the same bytes
+                new_unit = (unit & ~mask_a) | image
+                wb2 = new_unit & ((1 << b2) - 1) if endian == "<" else new_unit >> (size * 8 - b2)
+                # (dumping writes the first member only -- K1 -- so the dump is a's bits alone or the whole unit)
+                ok = int(u.a) == nv and int(u.b) == wb2 and u._buf == new_unit.to_bytes(size, bo) and \
+                    u.dumps() in (image.to_bytes(size, bo), new_unit.to_bytes(size, bo))
                 try:
                     u.a = 1 << b1
                     ok = False
